@@ -781,6 +781,14 @@ def f(x, g):
         out[i] = g(x[i])
     return out
 
+def f2(x0, g, n):
+    x0 = np.atleast_1d(x0)
+    chain = np.empty((n,) + x0.shape, dtype=x0.dtype)
+    chain[0] = x0
+    for i in range(1, n):
+        chain[i] = g(chain[i - 1])
+    return chain
+
 def ok_float(x, g):
     x = np.asanyarray(x, dtype=float)
     out = np.zeros_like(x)
@@ -864,15 +872,24 @@ def inherited_dtype_sweep(ctx, modules=None):
             for n in own_nodes(fnode):
                 if not (isinstance(n, ast.Assign) and len(n.targets) == 1 and
                         isinstance(n.targets[0], ast.Name) and isinstance(n.value, ast.Call)
-                        and isinstance(n.value.func, ast.Attribute) and
-                        n.value.func.attr in _LIKE and n.value.args):
+                        and isinstance(n.value.func, ast.Attribute)):
                     continue
                 call = n.value
-                if any(k.arg == 'dtype' for k in call.keywords) or len(call.args) >= \
-                        (3 if call.func.attr == 'full_like' else 2):
+                like_of = None
+                if call.func.attr in _LIKE and call.args:
+                    if any(k.arg == 'dtype' for k in call.keywords) or len(call.args) >= \
+                            (3 if call.func.attr == 'full_like' else 2):
+                        continue
+                    like_of = call.args[0]
+                elif call.func.attr in ('empty', 'zeros', 'ones', 'full'):
+                    # np.empty(shape, dtype=X.dtype): the same inheritance, spelled out
+                    dt = [k.value for k in call.keywords if k.arg == 'dtype']
+                    if dt and isinstance(dt[0], ast.Attribute) and dt[0].attr == 'dtype':
+                        like_of = dt[0].value
+                if like_of is None:
                     continue
                 buf = n.targets[0].id
-                src_p = shape_only_source(call.args[0], fnode)
+                src_p = shape_only_source(like_of, fnode)
                 stores = [s for s in own_nodes(fnode) if isinstance(s, ast.Assign) and
                           any(isinstance(t, ast.Subscript) and isinstance(t.value, ast.Name) and
                               t.value.id == buf for t in s.targets)]
@@ -899,8 +916,9 @@ def inherited_dtype_sweep(ctx, modules=None):
     return n_seen
 
 
-def inherited_dtype_obligation(ctx):
-    """Obligation body: self-test on a positive example, then the package."""
+def inherited_dtype_obligation(ctx, module_names=None):
+    """Obligation body: self-test on a positive example, then the package (or the named
+    modules only)."""
     import ast as _ast
     tree = _ast.parse(_DTYPE_EXAMPLE)
     for n in _ast.walk(tree):
@@ -928,8 +946,17 @@ def inherited_dtype_obligation(ctx):
             pass
     probe = _C()
     inherited_dtype_sweep(probe, modules=[_M])
-    if probe.found != ['f']:
+    if probe.found != ['f', 'f2']:
         raise AnalysisError('dtype-inheritance sweep self-test failed: {}'.format(probe.found))
+    if module_names is not None:
+        mods = [ctx.repo.modules[m] for m in module_names]
+        n = inherited_dtype_sweep(ctx, modules=mods)
+        if n == 0:
+            for m in mods:
+                ctx.ok(m.name, 'no result buffer takes the dtype of an argument',
+                       '{} functions scanned; positive examples matched'.format(
+                           len(m.all_functions)))
+        return
     n = inherited_dtype_sweep(ctx)
     if n == 0:
         nf = sum(len(m.all_functions) for m in ctx.repo.modules.values()
